@@ -93,6 +93,8 @@ fn observe(kind: u32, addr: usize) {
 static SQPOLL_RING: std::sync::atomic::AtomicI32 = std::sync::atomic::AtomicI32::new(-1);
 /// Loads of kernel-shared words since the last handle's `io_uring_enter`.
 static SQPOLL_LOADS: std::sync::atomic::AtomicU32 = std::sync::atomic::AtomicU32::new(0);
+/// the simulated kernel thread runs at this many loads of a kernel-shared word after an enter
+static SQPOLL_AFTER: std::sync::atomic::AtomicU32 = std::sync::atomic::AtomicU32::new(3);
 
 /// Scheduling-point hook for `sqpoll-last-handle`: the simulated kernel thread consumes everything
 /// published at the first load of a kernel-shared word AFTER an `io_uring_enter` call of the ring
@@ -114,7 +116,7 @@ fn sqpoll_progress(kind: u32, _addr: usize) {
         // (`wake_blocked_futures`) loads the two queue counters; the thread runs at the third load,
         // i.e. only for code that keeps looking at the queue after the call returned.
         let n = SQPOLL_LOADS.fetch_add(1, std::sync::atomic::Ordering::SeqCst) + 1;
-        if n < 3 {
+        if n < SQPOLL_AFTER.load(std::sync::atomic::Ordering::SeqCst) {
             return;
         }
         let mut evs = Vec::new();
@@ -596,6 +598,77 @@ impl TdCase {
         simk::purge_closed_except(self.rfd);
         self.feat("sqpoll-last-handle");
         vec![format!("sqpoll-last-handle closes={closes} left={left} open={}", u8::from(open))]
+    }
+
+    /// `teardown sqpoll-ring-drop`: a ring with a kernel submission thread of its own; a read is
+    /// polled once (queued) and abandoned (a cancel queued behind it), then the Ring is dropped
+    /// while the thread has not looked at the queue yet — it takes it "later": at the 40th load of
+    /// a kernel-shared word after the drop's first `io_uring_enter`, i.e. only for code that waits
+    /// for it. The Ring's drop has to let the thread take the queue BEFORE it cancels what is in
+    /// flight and collects the last completions; otherwise the read starts after the cancellation
+    /// sweep and its completion arrives when nobody processes completions any more. Observed:
+    /// whether the read's buffer was released.
+    fn do_sqpoll_ring_drop(&mut self) -> Vec<String> {
+        let pre = simk::drain_events();
+        simk::purge_closed_except(self.rfd);
+        let held_main = simk::hold_fd(self.rfd);
+        let before: Vec<i32> = simk::with_sim(|s| s.rings.keys().copied().collect());
+        let built_b = Ring::config().with_submission_queue_size(4).with_kernel_thread().build();
+        if held_main {
+            simk::release_fd(self.rfd);
+        }
+        let ring_b = match built_b {
+            Ok(r) => r,
+            Err(e) => return vec![format!("sqpoll-ring-drop setup-failed {e}")],
+        };
+        let Some(rfd_b) = simk::with_sim(|s| s.rings.keys().copied().find(|k| !before.contains(k))) else {
+            return vec!["sqpoll-ring-drop no-new-ring".into()];
+        };
+        let sq_b = ring_b.sq();
+        let raw = simk::with_ring(rfd_b, |ring, _| ring.fresh_fd());
+        let fd: &'static AsyncFd = Box::leak(Box::new(unsafe { AsyncFd::from_raw_fd(raw, sq_b.clone()) }));
+        drop(sq_b);
+        let w = util::waker(989);
+        let mut cx = std::task::Context::from_waker(&w);
+        let buf: Vec<u8> = Vec::with_capacity(48);
+        let blk = track::watch(buf.as_ptr() as usize);
+        {
+            let mut f: std::pin::Pin<Box<dyn std::future::Future<Output = std::io::Result<Vec<u8>>>>> = Box::pin(fd.read(buf));
+            let _ = f.as_mut().poll(&mut cx);
+            // dropped: the read and the cancel request are queued, the thread has seen neither
+        }
+        let queued = simk::with_ring(rfd_b, |ring, _| ring.sq_pending());
+        let _ = simk::drain_events();
+        simk::SQWAIT_RUNS_THREAD.store(false, std::sync::atomic::Ordering::SeqCst);
+        SQPOLL_LOADS.store(0, std::sync::atomic::Ordering::SeqCst);
+        SQPOLL_AFTER.store(40, std::sync::atomic::Ordering::SeqCst);
+        SQPOLL_RING.store(rfd_b, std::sync::atomic::Ordering::SeqCst);
+        a10::verif::set_hook(Some(sqpoll_progress));
+        let _ = util::catch(move || drop(ring_b));
+        a10::verif::set_hook(Some(observe));
+        SQPOLL_RING.store(-1, std::sync::atomic::Ordering::SeqCst);
+        SQPOLL_AFTER.store(3, std::sync::atomic::Ordering::SeqCst);
+        simk::SQWAIT_RUNS_THREAD.store(true, std::sync::atomic::Ordering::SeqCst);
+        let released = u8::from(blk.as_ref().is_some_and(|b| !track::is_live(b.id)));
+        if released != 1 {
+            self.fail("C12/sqpoll-ring-drop", format!("ring with a kernel thread that had not taken the queue when the Ring was dropped ({queued} entries queued: an abandoned read and its cancel request): the read's buffer was not released by the Ring's drop — the cancellation sweep ran before the thread started the read"));
+        }
+        // the last handle (its CLOSE is taken by the thread "a little later", as in `sqpoll-last-handle`)
+        SQPOLL_LOADS.store(0, std::sync::atomic::Ordering::SeqCst);
+        SQPOLL_RING.store(rfd_b, std::sync::atomic::Ordering::SeqCst);
+        a10::verif::set_hook(Some(sqpoll_progress));
+        let _ = util::catch(move || unsafe { drop(Box::from_raw(std::ptr::from_ref(fd).cast_mut())) });
+        a10::verif::set_hook(Some(observe));
+        SQPOLL_RING.store(-1, std::sync::atomic::Ordering::SeqCst);
+        let _ = simk::drain_events();
+        simk::with_sim(|sim| {
+            let mut keep = pre;
+            keep.append(&mut sim.events);
+            sim.events = keep;
+        });
+        simk::purge_closed_except(self.rfd);
+        self.feat("sqpoll-ring-drop");
+        vec![format!("sqpoll-ring-drop queued={queued} released={released}/1")]
     }
 
     /// `teardown defer-drop <n> <b>`: a single-issuer ring with deferred completions
@@ -1489,6 +1562,9 @@ impl TdCase {
             ["teardown", "sqpoll-last-handle"] => {
                 out = self.do_sqpoll_last_handle();
             }
+            ["teardown", "sqpoll-ring-drop"] => {
+                out = self.do_sqpoll_ring_drop();
+            }
             ["teardown", "disabled-drop", n] => {
                 let Ok(n) = n.parse::<usize>() else { return bad() };
                 if !(1..=6).contains(&n) {
@@ -1873,6 +1949,9 @@ impl Case for TdCase {
         }
         if rng.chance(1, 80) {
             return Some(format!("teardown disabled-drop {}", rng.range(1, 6)));
+        }
+        if rng.chance(1, 80) {
+            return Some("teardown sqpoll-ring-drop".into());
         }
         if rng.chance(1, 60) {
             return Some(format!("teardown single-last-handle {}", rng.pick(&["same", "other", "enabled-elsewhere"])));
